@@ -27,6 +27,11 @@ import splgen
 
 FULL_PROOF = True   # Props/C04.v proves C04_roundtrip for all abstract programs with comments everywhere
 
+import sys
+sys.setrecursionlimit(100000)
+import threading
+threading.stack_size(512 * 1024 * 1024)
+
 LAYOUTS = [("dense", "\n"), ("sparse", "\n"), ("sparse", "\r\n"), ("lines", "\n"), ("lines", "\r\n")]
 
 
@@ -130,6 +135,45 @@ def gap_family(seed, nprogs):
         if nprogs <= 0:
             break
     return out
+
+
+def deep_family():
+    """valid programs nested far deeper than anything the random generator reaches: a limit on the nesting of ONE construct
+    (brackets, unary minus, indices, blocks, if / while, array types) shows only here"""
+    out = []
+    one = ("lit", "1")
+    x = ("var", ("name", "x"))
+    cond = ("bin", "<", x, one)
+
+    def nest(n, f, base):
+        e = base
+        for _ in range(n):
+            e = f(e)
+        return e
+
+    for n in (33, 40, 70, 150):
+        progs = {
+            "brackets": ("assign", ("name", "x"), ("bin", "+", nest(n, lambda e: ("par", e), one), ("lit", "2"))),
+            "minus": ("assign", ("name", "x"), nest(n, lambda e: ("neg", e), x)),
+            "index": ("assign", nest(n, lambda v: ("index", v, one), ("name", "a")), ("var", nest(n, lambda v: ("index", ("name", "a"), ("var", v)), ("name", "x")))),
+            "blocks": nest(n, lambda s: ("block", [s, ("empty",)]), ("assign", ("name", "x"), one)),
+            "ifs": nest(n, lambda s: ("if", cond, s, ("empty",)), ("assign", ("name", "x"), one)),
+            "whiles": nest(n, lambda s: ("while", cond, s), ("empty",)),
+            "left-assoc": ("assign", ("name", "x"), nest(n, lambda e: ("bin", "-", e, one), x)),
+            "right-brackets": ("assign", ("name", "x"), nest(n, lambda e: ("bin", "*", one, ("par", e)), x)),
+        }
+        for name, s in progs.items():
+            prog = (("proc", "main", (), (), (s,)),)
+            out.append((name, n, prog))
+        out.append(("array-types", n, (("type", "t", nest(n, lambda b: ("array", "2", b), ("named", "int"))), ("proc", "main", (), (), ()))))
+    cases = []
+    for k, (name, n, prog) in enumerate(out):
+        prog = totuple(prog)
+        slots = gg.empty_slots(len(splgen.flatten(prog)) + 1)
+        c = make_case(prog, slots, "dense" if k % 2 else "sparse", "\n", 5000 + k)
+        c["pid"] = "deep/%s/%d" % (name, n)
+        cases.append(c)
+    return cases
 
 
 def corpus_cases():
@@ -386,6 +430,9 @@ def run(ctx):
     ncorpus = len(first)
     fam = gap_family(ctx.seed, 12 if ctx.thorough() else 4)
     first += fam
+    deep = deep_family()
+    first += deep
+    ctx.cov["deep_nesting_cases"] = len(deep)
     hist = {}
     stats = dict(cases=0, tokens=0, max_tokens=0, comments=0)
     fails_all, mism_all, lay_bad = [], [], []
